@@ -446,3 +446,15 @@ def flatten_phi(e, limit=16):
         else:
             out.append(x)
     return out
+
+
+def last_field(e):
+    """Name of the outermost field projection of a (peeled) place expression, else None."""
+    e = strip(e)
+    return e[2] if e[0] == "field" else None
+
+
+def field_base(e):
+    """The expression a field is projected from (peeled), else None."""
+    e = strip(e)
+    return e[1] if e[0] == "field" else None
